@@ -212,7 +212,15 @@ def shard(a):
     name, fn, kind = a['g']
     valid = gen.valid_numbers(name)
     raw = st.sampled_from(gen.seeds(name))
-    x = st.one_of(valid, valid, raw, gen.decorations(name, valid))
+    parts = [valid, valid, raw, gen.decorations(name, valid)]
+    lay = DATE_LAYOUT.get(name)
+    if lay is not None and lay[0] is not None:
+        dv = gen.date_variants(name, (lay[0], lay[2], lay[3]))
+        parts += [dv, dv]
+    extra = gen.extra_valid(name)
+    if extra is not None:
+        parts.append(extra)
+    x = st.one_of(*parts)
     strat = st.fixed_dictionaries({'mod': st.just(name), 'fn': st.just(fn), 'kind': st.just(kind), 'x': x.map(core.enc),
                                    'kw': st.sampled_from(OPTS.get((name, fn), [{}])), 'clock': gen.clock_strategy(name)})
     core.drive(prop, strat, a['n'], (a['seed'], 'C12', name, fn), res, shrink_skip=a['known'])
